@@ -247,6 +247,10 @@ pub(super) async fn content_inner(
     };
 
     if let Some(delegate) = inscription.delegate() {
+      if settings.is_hidden(delegate) {
+        return Ok(PreviewUnknownHtml.into_response());
+      }
+
       inscription = index
         .get_inscription_by_id(delegate)?
         .ok_or_not_found(|| format!("delegate {inscription_id}"))?
